@@ -174,6 +174,17 @@ def run_random(cfg, mon):
                 mon.check(root, name, "root-exists-on-disk")
                 mon.counters.inc("names_against_existing_roots")
                 mon.distinct.add(h64("real", os.path.relpath(root, base), name.replace(base, "<base>")))
+        # the process changes its working directory after the library was imported (a daemon that chdir()s): a relative root means
+        # "relative to where we are NOW", as os.path.abspath says
+        cwd0 = os.getcwd()
+        try:
+            os.chdir(os.path.join(base, "site"))
+            for root in ("static", ".", "img", "../site2", ""):
+                for name in ("a.txt", "img/b", "../secret.txt", "/etc/passwd", "x/../y", "", "..", os.path.join(base, "secret.txt")):
+                    mon.check(root, name, "after-chdir")
+                    mon.counters.inc("names_after_chdir")
+        finally:
+            os.chdir(cwd0)
     finally:
         shutil.rmtree(base, ignore_errors=True)
     for root in ROOTS:
@@ -263,7 +274,7 @@ def finish(tier, seed, results):
     m = merge(results)
     inconclusive = []
     need(m["counters"], ["calls", "refused", "returned_inside", "enum_names", "router_names", "valid_names_returned", "sibling_prefix_names",
-                         "names_against_existing_roots"], inconclusive)
+                         "names_against_existing_roots", "names_after_chdir"], inconclusive)
     cov = {
         "evaluations": m["evaluations"],
         "distinct_nontrivial": m["distinct_nontrivial"],
